@@ -1,7 +1,7 @@
 (* C02 — SQLite: generated SQL runs and builds exactly the believed schema.  Pinned statements only. *)
 From VV.M1 Require Import Validate.
 From Coq Require Import Permutation.
-From VV.SQLITE Require Import Corr Known WitnessP RowsP RebuildP SimP Sim2P Sim3P.
+From VV.SQLITE Require Import Corr Known WitnessP RowsP RebuildP SimP Sim2P Sim4P Sim5P Sim6P Sim7P Sim3P.
 
 (* the full-strength target for one migration (a definition, not a claim): for every replayed baseline and every plan
    that replays, the model generator's statements execute on the engine model from the believed catalog and end in
@@ -228,11 +228,202 @@ Check C02_sim_sqlite_modify_type : forall fk s c t col ty fw td s' l c',
   exec_all fk c l 0 = Ok c' ->
   Sim s' c'.
 
+(* ---- further action kinds (each outside the recorded classes, under decidable side conditions) ---- *)
+Theorem C02_sim_rebuild_general : forall fk s c t td td' s' scols pks fks checks dst exprs before c',
+  Sim s c -> ci_exact s t = true -> temp_free s t = true -> unique_table s t = true ->
+  find_table t s = Some td -> t_name td' = t ->
+  update_table t (fun _ => Ok td') s = Ok s' ->
+  forallb is_update before = true ->
+  forallb (fun f => negb (ieq (sf_table f) (temp_name t))) fks = true ->
+  table_of_create t scols pks fks checks = table_entry td' ->
+  exec_all fk c (before ++ [SCreateTable (temp_name t) scols pks fks checks; SInsertSelect (temp_name t) dst t exprs;
+                            SDropTable t; SRenameTable (temp_name t) t]
+                        ++ recreate_indexes t (t_constraints td') []) 0 = Ok c' ->
+  Sim s' c'.
+Proof. exact sim_rebuild_general. Qed.
+Print Assumptions C02_sim_rebuild_general.
+Check C02_sim_rebuild_general : forall fk s c t td td' s' scols pks fks checks dst exprs before c',
+  Sim s c -> ci_exact s t = true -> temp_free s t = true -> unique_table s t = true ->
+  find_table t s = Some td -> t_name td' = t ->
+  update_table t (fun _ => Ok td') s = Ok s' ->
+  forallb is_update before = true ->
+  forallb (fun f => negb (ieq (sf_table f) (temp_name t))) fks = true ->
+  table_of_create t scols pks fks checks = table_entry td' ->
+  exec_all fk c (before ++ [SCreateTable (temp_name t) scols pks fks checks; SInsertSelect (temp_name t) dst t exprs;
+                            SDropTable t; SRenameTable (temp_name t) t]
+                        ++ recreate_indexes t (t_constraints td') []) 0 = Ok c' ->
+  Sim s' c'.
+
+Theorem C02_sim_sqlite_add_constraint_rebuild : forall fk s c t k pending td s' l c',
+  Sim s c -> ci_exact s t = true -> temp_free s t = true -> unique_table s t = true ->
+  index_like k = false ->
+  find_table t s = Some td ->
+  contains_constraint k (t_constraints td) = false ->
+  existsb (fun c0 => constraints_overlap c0 k) (t_constraints td) = false ->
+  forallb (fun k0 => negb (contains_constraint k0 pending)) (t_constraints td) = true ->
+  pk_sane (add_constraint_to k td) = true ->
+  match k with CForeignKey _ _ rt _ _ _ => ieq rt (temp_name t) = false | _ => True end ->
+  apply_action s (AddConstraint t k) = Ok s' ->
+  gen s pending (AddConstraint t k) = GOk l ->
+  exec_all fk c l 0 = Ok c' ->
+  Sim s' c'.
+Proof. exact sim_sqlite_add_constraint_rebuild. Qed.
+Print Assumptions C02_sim_sqlite_add_constraint_rebuild.
+Check C02_sim_sqlite_add_constraint_rebuild : forall fk s c t k pending td s' l c',
+  Sim s c -> ci_exact s t = true -> temp_free s t = true -> unique_table s t = true ->
+  index_like k = false ->
+  find_table t s = Some td ->
+  contains_constraint k (t_constraints td) = false ->
+  existsb (fun c0 => constraints_overlap c0 k) (t_constraints td) = false ->
+  forallb (fun k0 => negb (contains_constraint k0 pending)) (t_constraints td) = true ->
+  pk_sane (add_constraint_to k td) = true ->
+  match k with CForeignKey _ _ rt _ _ _ => ieq rt (temp_name t) = false | _ => True end ->
+  apply_action s (AddConstraint t k) = Ok s' ->
+  gen s pending (AddConstraint t k) = GOk l ->
+  exec_all fk c l 0 = Ok c' ->
+  Sim s' c'.
+
+Theorem C02_sim_sqlite_modify_comment : forall fk s c t col cm s' l c',
+  Sim s c ->
+  apply_action s (ModifyColumnComment t col cm) = Ok s' ->
+  gen s [] (ModifyColumnComment t col cm) = GOk l ->
+  exec_all fk c l 0 = Ok c' ->
+  Sim s' c'.
+Proof. exact sim_sqlite_modify_comment. Qed.
+Print Assumptions C02_sim_sqlite_modify_comment.
+Check C02_sim_sqlite_modify_comment : forall fk s c t col cm s' l c',
+  Sim s c ->
+  apply_action s (ModifyColumnComment t col cm) = Ok s' ->
+  gen s [] (ModifyColumnComment t col cm) = GOk l ->
+  exec_all fk c l 0 = Ok c' ->
+  Sim s' c'.
+
+Theorem C02_sim_sqlite_add_column_rebuild : forall fk s c t col f td s' l c',
+  Sim s c -> ci_exact s t = true -> temp_free s t = true -> unique_table s t = true ->
+  find_table t s = Some td -> add_column_stable td col = true ->
+  (negb (c_nullable col) || is_enum_type (c_type col))%bool = true ->
+  pk_sane (with_column td col) = true ->
+  apply_action s (AddColumn t col f) = Ok s' ->
+  gen s [] (AddColumn t col f) = GOk l ->
+  exec_all fk c l 0 = Ok c' ->
+  Sim s' c'.
+Proof. exact sim_sqlite_add_column_rebuild. Qed.
+Print Assumptions C02_sim_sqlite_add_column_rebuild.
+Check C02_sim_sqlite_add_column_rebuild : forall fk s c t col f td s' l c',
+  Sim s c -> ci_exact s t = true -> temp_free s t = true -> unique_table s t = true ->
+  find_table t s = Some td -> add_column_stable td col = true ->
+  (negb (c_nullable col) || is_enum_type (c_type col))%bool = true ->
+  pk_sane (with_column td col) = true ->
+  apply_action s (AddColumn t col f) = Ok s' ->
+  gen s [] (AddColumn t col f) = GOk l ->
+  exec_all fk c l 0 = Ok c' ->
+  Sim s' c'.
+
+Theorem C02_sim_sqlite_add_column_plain : forall fk s c t col f td s' l c',
+  Sim s c -> ci_exact s t = true -> unique_table s t = true ->
+  find_table t s = Some td -> add_column_stable td col = true ->
+  c_nullable col = true -> is_enum_type (c_type col) = false ->
+  position_ci (c_name col) (snd (the_pk td)) 1 = 0 ->
+  apply_action s (AddColumn t col f) = Ok s' ->
+  gen s [] (AddColumn t col f) = GOk l ->
+  exec_all fk c l 0 = Ok c' ->
+  Sim s' c'.
+Proof. exact sim_sqlite_add_column_plain. Qed.
+Print Assumptions C02_sim_sqlite_add_column_plain.
+Check C02_sim_sqlite_add_column_plain : forall fk s c t col f td s' l c',
+  Sim s c -> ci_exact s t = true -> unique_table s t = true ->
+  find_table t s = Some td -> add_column_stable td col = true ->
+  c_nullable col = true -> is_enum_type (c_type col) = false ->
+  position_ci (c_name col) (snd (the_pk td)) 1 = 0 ->
+  apply_action s (AddColumn t col f) = Ok s' ->
+  gen s [] (AddColumn t col f) = GOk l ->
+  exec_all fk c l 0 = Ok c' ->
+  Sim s' c'.
+
+Theorem C02_sim_sqlite_delete_column_rebuild : forall fk s c t col td s' l c',
+  Sim s c -> ci_exact s t = true -> temp_free s t = true -> unique_table s t = true ->
+  find_table t s = Some td ->
+  forallb (delcol_ok col) (t_constraints td) = true ->
+  pk_sane (without_column td col) = true ->
+  apply_action s (DeleteColumn t col) = Ok s' ->
+  delete_column_temp t col td = GOk l ->
+  exec_all fk c l 0 = Ok c' ->
+  Sim s' c'.
+Proof. exact sim_sqlite_delete_column_rebuild. Qed.
+Print Assumptions C02_sim_sqlite_delete_column_rebuild.
+Check C02_sim_sqlite_delete_column_rebuild : forall fk s c t col td s' l c',
+  Sim s c -> ci_exact s t = true -> temp_free s t = true -> unique_table s t = true ->
+  find_table t s = Some td ->
+  forallb (delcol_ok col) (t_constraints td) = true ->
+  pk_sane (without_column td col) = true ->
+  apply_action s (DeleteColumn t col) = Ok s' ->
+  delete_column_temp t col td = GOk l ->
+  exec_all fk c l 0 = Ok c' ->
+  Sim s' c'.
+
+Theorem C02_sim_sqlite_remove_index : forall fk s c t n cols s' l c',
+  let k := CIndex n cols in
+  Sim s c -> unique_table s t = true -> name_owner_ok s t k = true ->
+  apply_action s (RemoveConstraint t k) = Ok s' ->
+  gen s [] (RemoveConstraint t k) = GOk l ->
+  exec_all fk c l 0 = Ok c' ->
+  Sim s' c'.
+Proof. exact sim_sqlite_remove_index. Qed.
+Print Assumptions C02_sim_sqlite_remove_index.
+Check C02_sim_sqlite_remove_index : forall fk s c t n cols s' l c',
+  let k := CIndex n cols in
+  Sim s c -> unique_table s t = true -> name_owner_ok s t k = true ->
+  apply_action s (RemoveConstraint t k) = Ok s' ->
+  gen s [] (RemoveConstraint t k) = GOk l ->
+  exec_all fk c l 0 = Ok c' ->
+  Sim s' c'.
+
+Theorem C02_sim_sqlite_remove_constraint_rebuild : forall fk s c t k td s' l c',
+  Sim s c -> ci_exact s t = true -> temp_free s t = true -> unique_table s t = true ->
+  match k with CUnique _ _ | CForeignKey _ _ _ _ _ _ | CCheck _ _ => True | _ => False end ->
+  find_table t s = Some td ->
+  forallb (fun c0 => Bool.eqb (keep_after_remove k c0) (negb (constraint_eqb c0 k))) (t_constraints td) = true ->
+  pk_sane (mkTable (t_name td) (t_description td) (t_columns td)
+                   (filter (fun c0 => negb (constraint_eqb c0 k)) (t_constraints td))) = true ->
+  apply_action s (RemoveConstraint t k) = Ok s' ->
+  gen s [] (RemoveConstraint t k) = GOk l ->
+  exec_all fk c l 0 = Ok c' ->
+  Sim s' c'.
+Proof. exact sim_sqlite_remove_constraint_rebuild. Qed.
+Print Assumptions C02_sim_sqlite_remove_constraint_rebuild.
+Check C02_sim_sqlite_remove_constraint_rebuild : forall fk s c t k td s' l c',
+  Sim s c -> ci_exact s t = true -> temp_free s t = true -> unique_table s t = true ->
+  match k with CUnique _ _ | CForeignKey _ _ _ _ _ _ | CCheck _ _ => True | _ => False end ->
+  find_table t s = Some td ->
+  forallb (fun c0 => Bool.eqb (keep_after_remove k c0) (negb (constraint_eqb c0 k))) (t_constraints td) = true ->
+  pk_sane (mkTable (t_name td) (t_description td) (t_columns td)
+                   (filter (fun c0 => negb (constraint_eqb c0 k)) (t_constraints td))) = true ->
+  apply_action s (RemoveConstraint t k) = Ok s' ->
+  gen s [] (RemoveConstraint t k) = GOk l ->
+  exec_all fk c l 0 = Ok c' ->
+  Sim s' c'.
+
+Theorem C02_sim_sqlite_rename_table : forall fk s c from to td s' c',
+  Sim s c -> ci_exact s from = true -> unique_table s from = true ->
+  find_table from s = Some td ->
+  existsb index_like (t_constraints td) = false -> no_enum_cols td = true -> no_ref_ci s from = true ->
+  apply_action s (RenameTable from to) = Ok s' ->
+  exec_all fk c [SRenameTable from to] 0 = Ok c' ->
+  Sim s' c'.
+Proof. exact sim_sqlite_rename_table. Qed.
+Print Assumptions C02_sim_sqlite_rename_table.
+Check C02_sim_sqlite_rename_table : forall fk s c from to td s' c',
+  Sim s c -> ci_exact s from = true -> unique_table s from = true ->
+  find_table from s = Some td ->
+  existsb index_like (t_constraints td) = false -> no_enum_cols td = true -> no_ref_ci s from = true ->
+  apply_action s (RenameTable from to) = Ok s' ->
+  exec_all fk c [SRenameTable from to] 0 = Ok c' ->
+  Sim s' c'.
+
 (* lifted over whole plans (evolving schema, pending constraints) and whole histories by induction: no bound on tables, actions
-   or migrations.  PARTIAL: plan_hyp admits CreateTable (no explicit CHECK), DeleteTable, AddConstraint index/unique,
-   ModifyColumnNullable/Default/Type and RawSql under the decidable side conditions of step_hyp; the other action kinds
-   (AddColumn, DeleteColumn, RenameTable/Column, RemoveConstraint, AddConstraint key/fk/check, ModifyColumnComment) are
-   missing and rest on the libsqlite3 oracle. *)
+   or migrations.  PARTIAL: plan_hyp admits every action kind except RenameColumn, the ALTER TABLE DROP COLUMN path of
+   DeleteColumn and RemoveConstraint of a primary key, each under the decidable side conditions of step_hyp (A2, A3, A5 and
+   "outside the recorded classes"); what it does not admit rests on the libsqlite3 oracle. *)
 Theorem C02_Sim_plan_partial : forall fk acts s c ls s' c',
   Sim s c -> plan_hyp s acts = true ->
   apply_all s acts = Ok s' ->
@@ -260,6 +451,10 @@ Example C02_history_hyp_satisfiable :
   (exists r, run_history true [] empty_catalog demo_history = Some r)
   /\ (exists r, run_history false [] empty_catalog demo_history = Some r).
 Proof. exact demo_history_runs. Qed.
+Example C02_history_hyp_satisfiable2 :
+  (exists r, run_history true [] empty_catalog demo_history2 = Some r)
+  /\ (exists r, run_history false [] empty_catalog demo_history2 = Some r).
+Proof. exact demo_history2_runs. Qed.
 
 (* non-vacuity of the positive statements: a plan with a rebuild, a plain ADD COLUMN, an index and a CREATE TABLE *)
 Example C02_holds_somewhere : c02_holds true ok_base ok_plan = true /\ c02_holds false ok_base ok_plan = true.
